@@ -1,9 +1,8 @@
 """C08 - reaction quantities obey Hess's law, reversal symmetry and detailed balance."""
-import ast as _ast
 from fractions import Fraction as Fr
 
 from ..nf import Rat, C
-from ..source import Unsupported, AnchorError
+from ..source import Unsupported, AnchorError, Module
 from ..xlate import Interp, Obj, ListV, DictV, Raised, FuncRef
 from .common import same, show, sub, opaque_obj
 from .rxnfix import (reaction, state_sum, get_public, set_public, species, make_reaction, SPECIES_METHODS,
@@ -27,8 +26,9 @@ STATES = (('reactants', 'r'), ('products', 'p'), ('transition state', 't'), ('tr
 # value is the same uninterpreted atom as for the species with a fixed signature, named by the conditions a species
 # reads (SPECIES_PARAMS) - a key it does not know, a block of conditions addressed to a species (which no empirical
 # class looks for: sorting the blocks out is the reaction's business), is ignored as the real classes ignore it.
-_KW_GETTERS = {m: _ast.parse('def %s(T, **kwargs):\n    return _record(T=T, **kwargs)\n' % m).body[0]
-               for m in SPECIES_METHODS}
+_KW_MODULE = Module('rule_C08.model_species', 'rule_C08/model_species.py', '<rule C08: model species>',
+                    ''.join('def %s(T, **kwargs):\n    return _record(T=T, **kwargs)\n\n\n' % m for m in SPECIES_METHODS))
+_KW_GETTERS = {f.name: f for f in _KW_MODULE.tree.body}
 
 
 class _Record:
@@ -45,7 +45,7 @@ class _Record:
 def accept_kwargs(I, repo, sp):
     """turn the model species ``sp`` into one whose getters are ``(T, **kwargs)`` functions"""
     for m in SPECIES_METHODS:
-        sp.attrs[m] = FuncRef(repo.module('pmutt'), _KW_GETTERS[m], None, None, closure={'_record': _Record(sp, m)})
+        sp.attrs[m] = FuncRef(_KW_MODULE, _KW_GETTERS[m], None, None, closure={'_record': _Record(sp, m)})
     return sp
 
 
@@ -512,13 +512,26 @@ def check(run, repo):
         'getters equal delta(act=True); Keq = exp(-delta G/RT) and K_f*K_r = 1; a keyword block addressed to one '
         'species reaches only that species; caller-supplied dictionaries are unchanged after the call. The values '
         'with units (state, change, activation) are decided in J/mol and a second unit. A second model reaction '
-        '(H2 + H2O + PT(S) = [H2O2(S)] = H2O(S) + h2o + PT(B); gas and surface species, a CatSite whose bulk species '
-        'takes part) decides that the sums run over all species whatever their site, that a block is addressed by '
-        'the exact name (stems, prefixes, case variants receive nothing) and that the order of the keyword '
-        'arguments does not matter.')
-    run.assumptions = ['species getters are arbitrary functions of the keyword arguments they accept '
-                       '(uninterpreted atoms); _force_pass_arguments modelled by its documented contract']
-    run.undecided = ['numerical values; species whose getters ignore their arguments']
+        '(H2 + H2O + PT(S) = [H2O2(S) + H2O_TS] = H2O(S) + h2o + PT(B); gas and surface species, a CatSite whose bulk '
+        'species takes part) decides that the sums run over all species whatever their site, that a block is '
+        'addressed by the exact name (stems, prefixes, case variants receive nothing; a name may contain the '
+        'underscore of the block syntax) and that the order of the keyword arguments does not matter. Model species '
+        'are of two kinds on every side: getters with a fixed signature and getters that accept **kwargs (as every '
+        'species class of the package has them). Every getter is also called with its leading parameters by '
+        'position in the documented order. After these evaluations the six sides are re-assigned through their '
+        'public setters (new coefficients; new species lists of other lengths), a second reaction of the class is '
+        'built in the same session, and the laws are decided again against the sides as assigned. Two reactions '
+        'with exact rational species values and coefficients (conformers whose states differ by a few 1e-6 of '
+        'values of size 1e4; coefficients 0.25, 0.5, 0.75, 1, 1.5, 2, 4 with a species on both sides) are evaluated '
+        'in rational arithmetic first, so that a decision taken on a value (a tolerance, a rounding, a test on a '
+        'coefficient) is followed and compared with the sums.')
+    run.assumptions = ['species getters are arbitrary functions of the conditions they read - T, P, include_ZPE, '
+                       'ignore_q_elec - (uninterpreted atoms); a species whose getters accept **kwargs ignores '
+                       'every other key, blocks addressed to species included, as the empirical classes do']
+    run.undecided = ['floating-point evaluation (the concrete reactions are decided over the rationals); partition '
+                     'functions of concrete reactions with fractional coefficients; species whose getters ignore '
+                     'their arguments; species that pick a block addressed to them out of **kwargs themselves '
+                     '(StatMech) when the reaction hands it on unsorted']
     n = 0
     # 0. concrete reactions first: what they establish is reported even when a change makes a symbolic instance
     #    undecidable (a comparison of two atoms)
@@ -721,7 +734,7 @@ def check(run, repo):
         # 9. sides re-assigned through the public setters; a second object
         n += reassigned(run, repo, cname, qual, ci, I, rxn, rs, ps, ts)
         n += named(run, repo, cname, qual, ci)
-    run.floor('C08 instances', n, 250)
+    run.floor('C08 instances', n, 1000)
     network(run, repo)
 
 
